@@ -112,3 +112,60 @@ def rule_pivot_return_shape(mod, rep):
         if not clr:
             why.append("*usepr is not cleared on the singular path")
         rep.check(not why, "P-RET", "%s#returns" % f.name, "returns jcol+1 iff pivmax == 0, else 0", "; ".join(sorted(set(why))), C.loc, f.name)
+
+
+def rule_min_tracking(mod, rep):
+    from . import minacc
+    rep.rule("M-MIN", "the zero-pivot position that reaches *info is the minimum of the non-zero positions seen: the accumulators in p?gstrf_thread (over pivotL / "
+             "factor_snode results), p?gstrf_factor_snode (first non-zero, columns ascending) and p?gstrf_thread_finalize (over threads) are verified by symbolic "
+             "case enumeration (V==0, S==0, V<S, V==S, V>S) of one loop iteration, and the accumulator is what is finally stored through info", floor=60)
+    for prec in "sdcz":
+        # worker
+        f = mod.funcs.get("p%sgstrf_thread" % prec)
+        if f:
+            rep.scope([f.name])
+            def cell1(x, f=f):
+                return any(len(p) == 2 and p[0] == ("A", 0) and p[1][0] == "f" and p[1][2] == "info" for p in f.addr_paths(x))
+            def isV(x, f=f):
+                return x.op == "load" and cell1(x)
+            n = minacc.verify(f, isV, True, rep, "M-MIN", "singular")
+            if n == 0:
+                rep.fail("M-MIN", "%s#no-accumulator" % f.name, "no accumulator of singular columns found (each pivotL result would overwrite the previous one)", f.file, f.name)
+            _final_store(f, rep, lambda s: any(len(p) == 2 and p[0] == ("A", 0) and p[1][0] == "f" and p[1][2] == "info" for p in f.addr_paths(s)), "thread")
+        g = mod.funcs.get("p%sgstrf_factor_snode" % prec)
+        if g:
+            rep.scope([g.name])
+            ki = g.pindex("info")
+            def isV2(x, g=g, ki=ki):
+                return x.op == "load" and (("A", ki),) in g.addr_paths(x)
+            n = minacc.verify(g, isV2, False, rep, "M-MIN", "singular")
+            if n == 0:
+                rep.fail("M-MIN", "%s#no-accumulator" % g.name, "no accumulator of singular columns found in the relaxed-supernode loop (a later column's status overwrites an earlier zero pivot)", g.file, g.name)
+            _final_store(g, rep, lambda s: (("A", ki),) in g.addr_paths(s), "factor_snode")
+        h = mod.funcs.get("p%sgstrf_thread_finalize" % prec)
+        if h:
+            rep.scope([h.name])
+            def isV3(x, h=h):
+                return x.op == "load" and any(p[0] == ("A", 0) and p[-1][0] == "f" and p[-1][2] == "info" and p[-1][1].endswith("threadarg_t") for p in h.addr_paths(x))
+            n = minacc.verify(h, isV3, True, rep, "M-MIN", "iinfo")
+            if n == 0:
+                rep.fail("M-MIN", "%s#no-accumulator" % h.name, "thread results are not combined by a minimum", h.file, h.name)
+            _final_store(h, rep, lambda s: any(len(p) >= 2 and p[-1] == ("*",) and p[-2][0] == "f" and p[-2][2] == "info" and p[-2][1] == "pxgstrf_shared_t" for p in h.addr_paths(s)), "finalize")
+
+
+def _final_store(f, rep, is_info_store, label):
+    """the store to the info cell that reaches the normal return last carries a loop-header phi (the accumulator)"""
+    sts = [s for s in f.insts() if s.op == "store" and is_info_store(s)]
+    last = []
+    for s in sts:
+        r = f.reach([s], stop=lambda x: x in sts)
+        if any(f.inst[x].op == "ret" for x in r) and not any(x.i in r for x in sts if x is not s):
+            last.append(s)
+    ok = False
+    for s in last:
+        v = strip_casts(f, s.ops[0])
+        if v[0] == "v" and f.inst[v[1]].op == "phi":
+            ok = True
+    # among 'last' stores, at least one is the accumulator and all others are constants / callee results on early exits
+    rep.check(ok, "M-MIN", "%s#final-store" % f.name, "the value stored through info before the normal return is the accumulator",
+              "no store of the accumulated minimum reaches the normal return (%s)" % label, last[0].loc if last else f.file, f.name)
